@@ -134,12 +134,33 @@ func specForRoutes(routes []rroute) string {
 		for _, m := range tmplParamRe.FindAllStringSubmatch(r.tmpl, -1) {
 			params = append(params, map[string]any{"name": m[1], "in": "path", "required": true, "schema": map[string]any{"type": "string"}})
 		}
-		op := map[string]any{"operationId": fmt.Sprintf("op%d", i), "responses": map[string]any{"200": map[string]any{"description": "ok"}}}
-		if params != nil {
-			op["parameters"] = params
+		// the order parameters are declared in is not the order they have in the template: reversed for every
+		// other route, and for every third the first one of the template is declared on the path item (the
+		// parameters of an operation are merged in front of those of its path item)
+		if i%2 == 1 {
+			for a, b := 0, len(params)-1; a < b; a, b = a+1, b-1 {
+				params[a], params[b] = params[b], params[a]
+			}
 		}
+		op := map[string]any{"operationId": fmt.Sprintf("op%d", i), "responses": map[string]any{"200": map[string]any{"description": "ok"}}}
 		if paths[r.tmpl] == nil {
 			paths[r.tmpl] = map[string]any{}
+		}
+		if i%3 == 2 && len(params) > 1 && paths[r.tmpl]["parameters"] == nil && len(paths[r.tmpl]) == 0 {
+			paths[r.tmpl]["parameters"] = params[:1]
+			params = params[1:]
+		} else if shared, ok := paths[r.tmpl]["parameters"].([]any); ok {
+			// another method of a template whose path item already declares a parameter
+			var rest []any
+			for _, p := range params {
+				if p.(map[string]any)["name"] != shared[0].(map[string]any)["name"] {
+					rest = append(rest, p)
+				}
+			}
+			params = rest
+		}
+		if params != nil {
+			op["parameters"] = params
 		}
 		paths[r.tmpl][strings.ToLower(r.method)] = op
 	}
@@ -590,17 +611,24 @@ func c05Judge(r *lp.Run, s *c05set, p probe, ans string) {
 				}
 			}
 			if opi != nil && len(opi.Params) == len(fArgs) {
+				// FindPath reports the arguments in template order; the handler's struct has one field per
+				// declared parameter, in declaration order (which need not be the template's): bind by name
+				byName := map[string]string{}
+				for i, m := range tmplParamRe.FindAllStringSubmatch(fPattern, -1) {
+					if i < len(fArgs) {
+						byName[m[1]] = fArgs[i]
+					}
+				}
 				parts := make([]string, len(fArgs))
-				// params struct fields are in declaration order = template order
-				for i, a := range fArgs {
-					parts[i] = fmt.Sprintf("%s=%q", opi.Params[i].Field, a)
+				for i, pi := range opi.Params {
+					parts[i] = fmt.Sprintf("%s=%q", pi.Field, byName[pi.Name])
 				}
 				want := "<none>"
 				if len(fArgs) > 0 {
 					want = op + "Params{" + strings.Join(parts, ",") + "}"
 				}
 				if sparams != want {
-					fail("handler receives other path arguments than FindPath reports", sparams, want)
+					fail("the handler's named path parameters are not the arguments of the matched template (bound by name)", sparams, want)
 				}
 			}
 		}
